@@ -33,7 +33,7 @@ def run(F, chk):
     ra = chk.rule("R-C14-a", "T5+T12", "DATA emission / window debit only behind a window test", floor=1)
     call = [p for p in F.paths() if p.startswith("<" + CONV) and p.endswith("::call") and "{closure" not in p]
     if ra.require(len(call) == 1, "H2BlockConverter::call not found"):
-        b = F.body(call[0])
+        b = lib.flat(F, F.body(call[0]))      # the budgeting of a chunk may live in a private helper
         ra.fn(b.path)
         debits = [(bi, si, s) for bi, si, s in writes_of(b, CONV, "window") if s["rv"]["k"] == "bin" and s["rv"]["op"].startswith("Sub")]
         if ra.require(debits, "no `self.window -= ..` found in H2BlockConverter::call"):
